@@ -52,25 +52,25 @@ type handle struct {
 func handles() []handle {
 	return []handle{
 		{"Func(F)", -1, F, func(b *mocker.Builder) mocker.ExportedMocker { return b.Func(F) },
-			func(k int) interface{} { return func(a int) int { return 5000 + k } }, false},
+			func(k int) interface{} { return func(a int) int { return 1000000 + k } }, false},
 		{"Func(G)", -2, G, func(b *mocker.Builder) mocker.ExportedMocker { return b.Func(G) },
-			func(k int) interface{} { return func(a int) int { return 5000 + k } }, false},
+			func(k int) interface{} { return func(a int) int { return 1000000 + k } }, false},
 		{"Struct(T).Method(M)", -3, func(a int) int { return (&T{}).M(a) }, func(b *mocker.Builder) mocker.ExportedMocker { return b.Struct(&T{}).Method("M") },
-			func(k int) interface{} { return func(t *T, a int) int { return 5000 + k } }, false},
+			func(k int) interface{} { return func(t *T, a int) int { return 1000000 + k } }, false},
 		{"ExportFunc(foo).As", -4, foo, func(b *mocker.Builder) mocker.ExportedMocker {
 			return b.ExportFunc("foo").As(func(a int) int { return 0 })
 		},
-			func(k int) interface{} { return func(a int) int { return 5000 + k } }, false},
+			func(k int) interface{} { return func(a int) int { return 1000000 + k } }, false},
 		{"Interface(&iv).Method(Get).As", -5, func(a int) int { return iv.Get(a) },
 			func(b *mocker.Builder) mocker.ExportedMocker {
 				return b.Interface(&iv).Method("Get").As(func(ctx *mocker.IContext, a int) int { return 0 })
 			},
-			func(k int) interface{} { return func(ctx *mocker.IContext, a int) int { return 5000 + k } }, true},
+			func(k int) interface{} { return func(ctx *mocker.IContext, a int) int { return 1000000 + k } }, true},
 		{"Interface(&iv).Method(Put).As", -6, func(a int) int { return iv.Put(a) },
 			func(b *mocker.Builder) mocker.ExportedMocker {
 				return b.Interface(&iv).Method("Put").As(func(ctx *mocker.IContext, a int) int { return 0 })
 			},
-			func(k int) interface{} { return func(ctx *mocker.IContext, a int) int { return 5000 + k } }, true},
+			func(k int) interface{} { return func(ctx *mocker.IContext, a int) int { return 1000000 + k } }, true},
 	}
 }
 
@@ -128,15 +128,15 @@ func TestC12(t *testing.T) {
 				}
 			case "cb":
 				for _, a := range []int{7, fresh + 999} {
-					if v, p := safeCall(hd.call, a); p != nil || v != 5000+s.cbK {
-						viol("C12/later-apply-not-in-effect", fmt.Sprintf("call(%d) = %d (panic %v), want callback #%d's %d", a, v, p, s.cbK, 5000+s.cbK), ti)
+					if v, p := safeCall(hd.call, a); p != nil || v != 1000000+s.cbK {
+						viol("C12/later-apply-not-in-effect", fmt.Sprintf("call(%d) = %d (panic %v), want callback #%d's %d", a, v, p, s.cbK, 1000000+s.cbK), ti)
 					}
 				}
 			case "stub":
 				for x, want := range s.clauses {
 					if v, p := safeCall(hd.call, x); p != nil || v != want {
 						key := "C12/when-clause-not-in-effect"
-						if v >= 5000 {
+						if v >= 1000000 {
 							key = "C12/stub-after-apply-ignored"
 						} else if s.retIssued >= 2 && s.hasDefault {
 							key = "C12/when-after-repeated-return-ignored"
@@ -155,7 +155,7 @@ func TestC12(t *testing.T) {
 						vals = append(vals, v)
 					}
 					for _, v := range vals {
-						if v >= 5000 {
+						if v >= 1000000 {
 							viol("C12/stub-after-apply-ignored", fmt.Sprintf("after Return(%d) calls still answer from a superseded callback: %v", s.lastRet, vals), ti)
 							return
 						}
